@@ -106,7 +106,7 @@ func c09Gen(seed uint64, run int, tier string) *Case {
 			case 8:
 				ops = append(ops, Op{K: "readwrong", A: []int64{off | int64(markWrong), 10}})
 			case 9:
-				ops = append(ops, Op{K: "tagreads", A: []int64{int64(len(ops)), int64(r.Range(2, 6)), int64(r.Pick(1, 8, 30)), int64(r.Intn(3)), int64(r.Intn(4))}})
+				ops = append(ops, Op{K: "tagreads", A: []int64{int64(len(ops)), int64(r.Pick(2, 3, 4, 5, 6, 6, 20, 24)), int64(r.Pick(1, 8, 30)), int64(r.Intn(3)), int64(r.Intn(4))}}) // up to 24 deep: more than the Tag's own 16-slot completion queue
 			}
 		}
 		c.Ops = append(c.Ops, Op{K: "caller", Sub: ops})
